@@ -59,9 +59,13 @@ def one_case(ctx, index, rng: random.Random):
             # compact integer / float16 contents given directly: every bin fits the type, the sums of a run need not
             from physt.histogram1d import Histogram1D
 
-            dt_ = rng.choice(["int16", "int32", "float16"])
-            top_ = 60000 if dt_ == "float16" else int(np.iinfo(dt_).max)
+            dt_ = rng.choice(["int16", "int32", "float16", "float32", "float16"])
+            top_ = 60000 if dt_ == "float16" else (2**30 if dt_ == "float32" else int(np.iinfo(dt_).max))
             big_ = np.array([rng.choice([0, 1, top_ // 2, top_ - 1, top_]) for _ in range(len(pairs))]).astype(dt_)
+            if dt_ in ("float16", "float32") and rng.random() < 0.6:
+                # every bin is an exact number of the type; the sum of a run (in range) need not be one
+                unit_ = 2**11 if dt_ == "float16" else 2**24
+                big_ = np.array([unit_ + 2 * rng.randint(0, 40) for _ in range(len(pairs))]).astype(dt_)
             h = Histogram1D(np.array([p[0] for p in pairs] + [pairs[-1][1]]), big_, errors2=big_.copy())
             kind = f"{kind}/{dt_}"
         shape = [len(pairs)]
